@@ -409,7 +409,7 @@ func cmdCheck(argv []string) {
 		"engine_mismatches":             mismatched + diffBad,
 		"load_s":                        loadS,
 		"replay_s":                      replayS,
-		"bounds":                        boundsText[prop],
+		"bounds":                        boundsFor(prop, ts, tierName),
 	}
 	if sum.RegexQ > 0 {
 		cov["programs"] = sum.RegexQ
@@ -503,6 +503,18 @@ var propSpecs = map[string]propSpec{
 	"C17": {Level: "other", Note: "Reduction, not schedule enumeration: each listed operation is executed symbolically (all inputs within the harness bounds) under a write monitor that freezes package state and everything reachable from the shared AST; zero stores into frozen objects on every path means the operation only reads shared memory. Operations that only read shared memory are race-free under every schedule (Go memory model) and return what they return when called alone. No interleaving is executed; a reported store is confirmed natively with go test -race."},
 }
 var boundsText = map[string]string{}
+
+// boundsFor states which bounds this run explored.
+func boundsFor(prop string, ts TierSpec, tierName string) string {
+	b := fmt.Sprintf("tier %s: harnesses called with tier argument %d (the bounds per property are in MANIFEST.json level_claimed.text and DESIGN.md section 10; the first figure there is tier 0, the one in parentheses tier 1); at most %d interpreted instructions per path; wall-clock budget %s; solver caps %d ms per query", tierName, ts.Tier, ts.MaxSteps, ts.Budget, ts.TimeoutMs)
+	if tierName == "thorough" && ts.Tier == 0 {
+		b += "; this property's thorough run keeps the quick bounds and adds cross-checking of every unsat verdict"
+	}
+	if t := boundsText[prop]; t != "" {
+		b += "; " + t
+	}
+	return b
+}
 
 func cmdSelfcheck(argv []string) {}
 
